@@ -3,6 +3,7 @@ package main
 // Calls: builtins, inlining, modular calls by contract, havoc of uncontracted callees.
 
 import (
+	"os"
 	"fmt"
 	"go/types"
 	"strings"
@@ -34,11 +35,16 @@ func (fx *FnCtx) havocHeaps(st *State, m *Modset) {
 			e := m.cells[k]
 			key, srt := fx.entrySort(e)
 			old := fx.heap(pre, key, srt)
+			if e.freshOnly && os.Getenv("GOVC_NOSKIP") == "" {
+				// Only cells allocated inside the region are written. Cells that do not exist yet are
+				// unconstrained in the current heap term (every quantified fact about heaps is guarded by the
+				// allocation counter or is a definition), so the term can stand for the heap afterwards as well:
+				// what the region wrote into its new cells is whatever contracts and invariants say about them.
+				continue
+			}
 			h := fx.s.freshConst("Hh", "(Array Ref "+srt+")")
 			st.heaps[key] = h
-			if e.freshOnly {
-				fx.s.assume("true", fmt.Sprintf("(forall ((r Ref)) (! (=> (<= (obj r) %s) (= (select %s r) (select %s r))) :pattern ((select %s r))))", pre.alloc, h, old, h))
-			} else if !e.allFields && !e.isMap {
+			if !e.allFields && !e.isMap {
 				// only some top-level fields of pre-existing cells may change
 				if _, isStruct := e.typ.Underlying().(*types.Struct); isStruct && !isTimeTime(e.typ) {
 					si := fx.tm.structInfo(e.typ)
@@ -64,6 +70,14 @@ func (fx *FnCtx) havocHeaps(st *State, m *Modset) {
 	na := fx.s.freshConst("alloc", "Int")
 	fx.s.assume("true", "(>= "+na+" "+pre.alloc+")")
 	st.alloc = na
+	if !m.top {
+		for _, k := range sortedKeys(m.cells) {
+			key, _ := fx.entrySort(m.cells[k])
+			if h, ok := st.heaps[key]; ok && !m.cells[k].isMap {
+				_, _ = key, h
+			}
+		}
+	}
 }
 
 func (fr *Frame) execCall(ins ssa.Instruction, c *ssa.CallCommon, st *State) []Val {
@@ -102,6 +116,24 @@ func (fr *Frame) resultTypes(sig *types.Signature) []types.Type {
 }
 
 func (fr *Frame) callFunc(ins ssa.Instruction, fn *ssa.Function, c *ssa.CallCommon, args, bindings []Val, st *State) []Val {
+	var before *State
+	if !fr.fx.eng.isExternal(fn) {
+		before = st.clone()
+	}
+	res := fr.callFunc1(ins, fn, c, args, bindings, st)
+	if before != nil {
+		if fr.callStates == nil {
+			fr.callStates = map[string][]*State{}
+			fr.preCallStates = map[string][]*State{}
+		}
+		n := fr.fx.eng.relName(fn)
+		fr.callStates[n] = append(fr.callStates[n], st.clone())
+		fr.preCallStates[n] = append(fr.preCallStates[n], before)
+	}
+	return res
+}
+
+func (fr *Frame) callFunc1(ins ssa.Instruction, fn *ssa.Function, c *ssa.CallCommon, args, bindings []Val, st *State) []Val {
 	fx := fr.fx
 	eng := fx.eng
 	if eng.isExternal(fn) {
@@ -184,11 +216,29 @@ func (fr *Frame) modularCall(ins ssa.Instruction, fn *ssa.Function, fc *FuncCont
 		res = append(res, fx.havocVal(fmt.Sprintf("%s_r%d", fn.Name(), i), t, st))
 	}
 	fx.bindResults(env, fn, res)
+	fx.assumeMode = true
 	for _, c := range fc.Ensures {
-		t := fx.evalIn(c.E, env, st, pre, nil).v.t
+		t, ok := fx.tryEval(c.E, env, st, pre)
+		if !ok {
+			continue // clause refers to the callee's internals (athead/atcall): not visible to callers
+		}
 		fx.s.assume(st.guard, t)
 	}
+	fx.assumeMode = false
 	return res
+}
+
+func (fx *FnCtx) tryEval(e Expr, env map[string]SVal, st, pre *State) (t Term, ok bool) {
+	defer func() {
+		if r := recover(); r != nil {
+			if ue, isU := r.(*UnsupportedError); isU && (strings.Contains(ue.msg, "athead()") || strings.Contains(ue.msg, "atcall()")) {
+				ok = false
+				return
+			}
+			panic(r)
+		}
+	}()
+	return fx.evalIn(e, env, st, pre, nil).v.t, true
 }
 
 func (fx *FnCtx) calleeEnv(fn *ssa.Function, args, bindings []Val) map[string]SVal {
